@@ -133,136 +133,81 @@ func (v *Version) Compare(other *Version) int {
 }
 
 // compareDebianVersionString compares two Debian version strings using Debian's rules
-// This implements the dpkg version comparison algorithm
+// This implements the dpkg version comparison algorithm (verrevcmp in lib/dpkg/version.c)
 func compareDebianVersionString(a, b string) int {
 	i, j := 0, 0
 
 	for i < len(a) || j < len(b) {
-		// Extract non-digit prefix
-		iStart := i
-		for i < len(a) && !unicode.IsDigit(rune(a[i])) {
-			i++
-		}
-		aNonDigit := a[iStart:i]
-
-		jStart := j
-		for j < len(b) && !unicode.IsDigit(rune(b[j])) {
-			j++
-		}
-		bNonDigit := b[jStart:j]
-
-		// Compare non-digit parts lexicographically with special tilde handling
-		nonDigitCmp := compareDebianNonDigits(aNonDigit, bNonDigit)
-		if nonDigitCmp != 0 {
-			return nonDigitCmp
-		}
-
-		// Extract digit prefix
-		iStart = i
-		for i < len(a) && unicode.IsDigit(rune(a[i])) {
-			i++
-		}
-		aDigit := a[iStart:i]
-
-		jStart = j
-		for j < len(b) && unicode.IsDigit(rune(b[j])) {
-			j++
-		}
-		bDigit := b[jStart:j]
-
-		// Compare digit parts numerically
-		digitCmp := compareDebianDigits(aDigit, bDigit)
-		if digitCmp != 0 {
-			return digitCmp
-		}
-	}
-
-	return 0
-}
-
-// compareDebianNonDigits compares non-digit parts with Debian-specific rules
-func compareDebianNonDigits(a, b string) int {
-	maxLen := max(len(a), len(b))
-
-	for i := range maxLen {
-		var aChar, bChar rune
-
-		// Get character or treat missing as null (sorts before anything)
-		if i < len(a) {
-			aChar = rune(a[i])
-		} else {
-			aChar = 0 // null character
-		}
-		if i < len(b) {
-			bChar = rune(b[i])
-		} else {
-			bChar = 0 // null character
-		}
-
-		// Apply Debian character weights
-		aWeight := getDebianCharWeight(aChar)
-		bWeight := getDebianCharWeight(bChar)
-
-		if aWeight != bWeight {
-			if aWeight < bWeight {
-				return -1
+		// Compare the non-digit prefixes character by character. The end of the
+		// string and the start of a digit run both weigh 0.
+		for (i < len(a) && !isASCIIDigit(a[i])) || (j < len(b) && !isASCIIDigit(b[j])) {
+			aWeight := debianCharOrder(a, i)
+			bWeight := debianCharOrder(b, j)
+			if aWeight != bWeight {
+				if aWeight < bWeight {
+					return -1
+				}
+				return 1
 			}
+			i++
+			j++
+		}
+
+		// Compare the digit runs numerically without converting them, so runs of
+		// any length are handled: skip leading zeros, then the longer run is the
+		// larger number, otherwise the first differing digit decides. An empty
+		// run equals zero.
+		for i < len(a) && a[i] == '0' {
+			i++
+		}
+		for j < len(b) && b[j] == '0' {
+			j++
+		}
+		firstDiff := 0
+		for i < len(a) && isASCIIDigit(a[i]) && j < len(b) && isASCIIDigit(b[j]) {
+			if firstDiff == 0 {
+				firstDiff = int(a[i]) - int(b[j])
+			}
+			i++
+			j++
+		}
+		if i < len(a) && isASCIIDigit(a[i]) {
 			return 1
 		}
-	}
-
-	return 0
-}
-
-// getDebianCharWeight returns the sort weight for a character per Debian rules
-// Tilde (~) sorts earliest, then null, then letters/other chars
-func getDebianCharWeight(r rune) int {
-	switch r {
-	case '~':
-		return -1 // Tilde sorts before everything else
-	case 0:
-		return 0 // Null/missing character
-	default:
-		return int(r) // Use Unicode value for other characters
-	}
-}
-
-// compareDebianDigits compares digit strings numerically
-func compareDebianDigits(a, b string) int {
-	// Empty string is treated as 0
-	if a == "" && b == "" {
-		return 0
-	}
-	if a == "" {
-		return -1
-	}
-	if b == "" {
-		return 1
-	}
-
-	// Convert to integers for comparison
-	aNum, aErr := strconv.ParseUint(a, 10, 64)
-	bNum, bErr := strconv.ParseUint(b, 10, 64)
-
-	if aErr == nil && bErr == nil {
-		if aNum < bNum {
+		if j < len(b) && isASCIIDigit(b[j]) {
 			return -1
 		}
-		if aNum > bNum {
+		if firstDiff < 0 {
+			return -1
+		}
+		if firstDiff > 0 {
 			return 1
 		}
+	}
+
+	return 0
+}
+
+func isASCIIDigit(c byte) bool {
+	return c >= '0' && c <= '9'
+}
+
+// debianCharOrder returns the sort weight of the character at position i per
+// Debian rules: tilde sorts before everything (even the end of the string),
+// then the end of the string or a digit, then letters, then everything else.
+func debianCharOrder(s string, i int) int {
+	if i >= len(s) {
 		return 0
 	}
-
-	// Fallback for very large numbers that don't fit in uint64.
-	// Compare by length first.
-	if len(a) < len(b) {
+	c := s[i]
+	switch {
+	case isASCIIDigit(c):
+		return 0
+	case (c >= 'A' && c <= 'Z') || (c >= 'a' && c <= 'z'):
+		return int(c)
+	case c == '~':
 		return -1
+	default:
+		return int(c) + 256
 	}
-	if len(a) > len(b) {
-		return 1
-	}
-
-	// If lengths are equal, a string comparison is correct.
-	return strings.Compare(a, b)
 }
